@@ -1080,7 +1080,7 @@ def _lockstep_op(run, ms, op, run_out=None):
         if got != want and exp.get("known_any"):
             problems.append(("known:" + exp["known_any"], KNOWN_QUIRKS[exp["known_any"]], diff_rows(got, want)))
             return None, None, problems
-        if got != want and _f5_match(w, got, want):
+        if got != want and ("f5" in ms.taint or _f5_match(w, got, want)):
             problems.append(("known:f5", KNOWN_QUIRKS["f5"], diff_rows(got, want)))
             return None, None, problems
         if got != want:
@@ -1124,7 +1124,7 @@ def _lockstep_op(run, ms, op, run_out=None):
     # ---- non-flush op
     if out[0] == "exc":
         e = out[1]
-        if post is None or any(kd.startswith("known:") for kd, _, _ in problems):
+        if post is None or any(kd.startswith("known:") for kd, _, _ in problems) or ms.taint:
             return None, None, problems  # model predicted an error too / consequence of a catalogued defect
         if isinstance(e, SA_ERRORS) and run.session.autoflush:
             # an autoflush inside the operation failed: acceptable iff a flush here may fail
@@ -1145,6 +1145,9 @@ def _lockstep_op(run, ms, op, run_out=None):
         problems.append(("merge-target", "merge returned %s, documented target is %s" % (out[1], post.last_merge), ""))
         return None, None, problems
     p = _life_problem(run, post)
+    if p and post.taint:
+        problems.append(("known:" + sorted(post.taint)[0], KNOWN_QUIRKS[sorted(post.taint)[0]], "%s: %s" % (_fmt_op(op), p)))
+        return None, None, problems
     if p:
         for q in KNOWN_QUIRKS:
             postq, _ = model_step(ms, op, quirks=(q,))
@@ -1159,8 +1162,8 @@ def _lockstep_op(run, ms, op, run_out=None):
 
 
 def _f5_match(w, got, want):
-    """one-to-one worlds: the only difference is a child row that still points at a parent although the model says
-    it was displaced (its many-to-one attribute was never cleared)"""
+    """one-to-one worlds: the only differences are foreign key values of the one-to-one link (a displaced child's
+    many-to-one attribute is never cleared, so it keeps its key, and re-assigning it later is a no-op)"""
     links = [l for l in w.spec.links if l.o2m and not l.uselist]
     if not links:
         return False
@@ -1173,8 +1176,8 @@ def _f5_match(w, got, want):
             return False
         i = cols[t].index(ls[0].fk)
         for a, b in zip(got[t], want[t]):
-            if a != b and not (a[:i] + a[i + 1:] == b[:i] + b[i + 1:] and b[i] is None and a[i] is not None):
-                return False
+            if a != b and a[:i] + a[i + 1:] != b[:i] + b[i + 1:]:
+                return False  # something else than the foreign key column differs
     return True
 
 
